@@ -53,8 +53,9 @@ def parseGTid : String → Option SendGate.Tid
   | "u" => some .user | "k" => some .kex | _ => none
 
 def gateLine (rc n : String) (sched : List String) : String :=
+  -- <recheck> is 0/1, or 2/3 = 0/1 with an unlocked clear in `_send_kex_init`
   match rc.toNat?, n.toNat?, sched.mapM parseGTid with
-  | some rc, some n, some sched => csv (SendGate.run (SendGate.init (rc == 1) n) sched).wire
+  | some rc, some n, some sched => csv (SendGate.run (SendGate.init (rc % 2 == 1) n (rc < 2)) sched).wire
   | _, _, _ => "bad-op"
 
 def stepLine (line : String) : String :=
